@@ -57,7 +57,47 @@ func (c *vxFaultClient) LTXFiles(ctx context.Context, level int, seek ltx.TXID, 
 	if c.faulty && vx.Fault("listFails") {
 		return nil, errVxInjected
 	}
-	return c.vxRepClient.LTXFiles(ctx, level, seek, useMetadata)
+	itr, err := c.vxRepClient.LTXFiles(ctx, level, seek, useMetadata)
+	if err == nil && c.faulty && vx.Fault("listBreaksOff") {
+		// a paginated listing whose later page cannot be fetched: some entries, then
+		// an error that only Err() and Close() report
+		return &vxBreakingIterator{FileIterator: itr, left: 1}, nil
+	}
+	return itr, err
+}
+
+// vxBreakingIterator yields `left` entries and then fails.
+type vxBreakingIterator struct {
+	ltx.FileIterator
+	left   int
+	broken bool
+}
+
+func (it *vxBreakingIterator) Next() bool {
+	if it.left == 0 {
+		it.broken = true
+		return false
+	}
+	it.left--
+	if !it.FileIterator.Next() {
+		return false
+	}
+	return true
+}
+
+func (it *vxBreakingIterator) Err() error {
+	if it.broken {
+		return errVxInjected
+	}
+	return it.FileIterator.Err()
+}
+
+func (it *vxBreakingIterator) Close() error {
+	_ = it.FileIterator.Close()
+	if it.broken {
+		return errVxInjected
+	}
+	return nil
 }
 
 func (c *vxFaultClient) WriteLTXFile(ctx context.Context, level int, minTXID, maxTXID ltx.TXID, r io.Reader) (*ltx.FileInfo, error) {
@@ -115,6 +155,11 @@ func VxC05Sync() {
 	m := vx.Choose("remotePrefix", 0, n)
 	for t := 1; t <= m; t++ {
 		c.put(local[t-1])
+	}
+	// a snapshot may have been uploaded ahead of the level-0 files (DB.Snapshot
+	// writes at the local position, however far the level-0 uploads have got)
+	if vx.Fault("snapshotAhead") {
+		c.put(&vxLTX{level: SnapshotLevel, min: 1, max: ltx.TXID(n), commit: 1, ts: 5000, pages: []vxPg{{pgno: 1, tag: 1}}})
 	}
 	r := NewReplicaWithClient(db, c)
 	db.Replica = r
